@@ -206,10 +206,13 @@ def ed25519(ctx, world, ev):
         flip = is_app(x, "Sub") and x.args[0] == Const(Q)
         x0 = x.args[1] if flip else x
         conds = conds_of(o)
-        sign = mk_app("bool", (mk_app("BitAnd", (le, bit)),))
+        le32 = mk_app("be2int", (mk_app("rev", (mk_app("slice", (b, Const(None), Const(32), Const(None))),)),))
         par = mk_app("bool", (mk_app("BitAnd", (x0, Const(1))),))
-        differs = (mk_app("NotEq", (sign, par)), True) in conds or (mk_app("Eq", (sign, par)), False) in conds
-        same = (mk_app("NotEq", (sign, par)), False) in conds or (mk_app("Eq", (sign, par)), True) in conds
+        differs = same = False
+        for e in (le, le32):       # (the width of the input is K5-width's / C05 D1's business)
+            sign = mk_app("bool", (mk_app("BitAnd", (e, bit)),))
+            differs = differs or (mk_app("NotEq", (sign, par)), True) in conds or (mk_app("Eq", (sign, par)), False) in conds
+            same = same or (mk_app("NotEq", (sign, par)), False) in conds or (mk_app("Eq", (sign, par)), True) in conds
         ok = (flip and differs) or (not flip and same)
         nf += 1
         ctx.ob("K5-decoder", "Ed25519 decode path (%s)" % ("x = Q - root" if flip else "x = root"), ok,
